@@ -39,39 +39,94 @@ def exactness(op, shape, cls):
         return None, 'plain counter comparison (increment position unknown)'
     return None, 'unrecognised compared quantity %s' % name
 
-def find_guard(g, node, cls):
+def limit_cond(g, d, cls):
+    """Analysis of one cond node d that compares a quantity with the nesting limit: None if it is not such a test, else
+    (GuardInfo, reject_label, reject region): the guard is sound (exact limit, reject edge stores the error and leaves)."""
+    lt = G.limit_test(d.ast, LIMIT_NAMES)
+    if lt is None: return None
+    op, x, lim = lt
+    shape = G.quantity_shape(x)
+    # which edge is the reject edge?  `X op L` true -> reject for > >= ; for < <= the false edge rejects
+    reject_label = True
+    if op in ('<', '<='):
+        reject_label = False; op = G.NEG[op]
+    elif op not in ('>', '>='):
+        return GuardInfo(False, 'nesting limit compared with `%s`' % op, d.line), None, []
+    rej = [e for e in d.succ if e.kind == 'edge' and e.label is reject_label]
+    if not rej:
+        return GuardInfo(False, 'nesting test has no reject edge (constant condition?)', d.line), None, []
+    region = G.region_of_edge(g, rej[0])
+    stores = any(n.kind == 'stmt' and G.assigns_enumerator(n.ast, {'ec'}, 'max_nesting_depth_exceeded') for n in region)
+    returns = any(n.kind == 'return' for n in region) or any(n.kind == 'stmt' and any(s is g.exit_throw for s in n.succ) for n in region)
+    if not stores:
+        # throwing variant: JSONCONS_THROW(ser_error(errc::max_nesting_depth_exceeded))
+        throws = any(n.kind == 'stmt' and any(s is g.exit_throw for s in n.succ) and
+                     any(x.get('n') == 'max_nesting_depth_exceeded' for x in A.walk(n.ast)) for n in region)
+        if not throws:
+            return GuardInfo(False, 'reject edge of the nesting test does not store max_nesting_depth_exceeded', d.line), reject_label, region
+    if not returns:
+        return GuardInfo(False, 'reject edge of the nesting test does not return', d.line), reject_label, region
+    ex, why = exactness(op, shape, cls)
+    if ex is None:
+        return GuardInfo(False, why, d.line), reject_label, region
+    if not ex:
+        return GuardInfo(False, 'inexact limit: ' + why, d.line), reject_label, region
+    return GuardInfo(True, 'guard `%s` at line %d' % (A.text(d.ast), d.line), d.line), reject_label, region
+
+def limit_wrapper(inter, callee):
+    """Summary of a helper that wraps the nesting test (`bool enter(ec) { if (++depth > max) { ec = ...; return false; } return true; }`):
+    (GuardInfo, value returned on rejection) when every return inside the reject region gives one constant and every other return the
+    opposite constant; None when the helper is not of that shape."""
+    if callee is None or callee.get('body') is None: return None
+    key = ('wrapper', callee['_unit'], callee['id'])
+    if key in inter.cfgs: return inter.cfgs[key]
+    res = None
+    g = inter.cfg(callee)
+    for d in g.rpo:
+        if d.kind != 'cond': continue
+        lc = limit_cond(g, d, callee.get('cls', callee['q']))
+        if lc is None: continue
+        gi, reject_label, region = lc
+        rets = [n for n in g.rpo if n.kind == 'return']
+        inside = [A.const(n.ast.get('val')) for n in rets if n in region]
+        outside = [A.const(n.ast.get('val')) for n in rets if n not in region]
+        if not inside or not outside or None in inside or None in outside: break
+        if len(set(bool(v) for v in inside)) != 1 or len(set(bool(v) for v in outside)) != 1 or bool(inside[0]) == bool(outside[0]): break
+        res = (gi, bool(inside[0]))
+        break
+    inter.cfgs[key] = res
+    return res
+
+def find_guard(g, node, cls, inter=None, fn=None):
     """Look for a dominating nesting-limit comparison of `node` in CFG g.
     Returns (GuardInfo|None).  A guard is a cond node C comparing X with max_nesting_depth such that
     node is dominated by C's pass edge, or by C itself when the reject region stores the error and returns
-    (the JSON parser's soft error-handler pattern)."""
+    (the JSON parser's soft error-handler pattern).  A call of a helper that wraps such a test and reports the outcome as a
+    bool (limit_wrapper) counts as the test itself."""
     doms = g.dominators(node)
     for d in doms:
         if d.kind != 'cond': continue
-        lt = G.limit_test(d.ast, LIMIT_NAMES)
-        if lt is None: continue
-        op, x, lim = lt
-        shape = G.quantity_shape(x)
-        # which edge is the reject edge?  `X op L` true -> reject for > >= ; for < <= the false edge rejects
-        reject_label = True
-        if op in ('<', '<='):
-            reject_label = False; op = G.NEG[op]
-        elif op not in ('>', '>='):
-            return GuardInfo(False, 'nesting limit compared with `%s`' % op, d.line)
-        rej = [e for e in d.succ if e.kind == 'edge' and e.label is reject_label]
+        lc = limit_cond(g, d, cls)
+        if lc is None and inter is not None and fn is not None:
+            ct = G.call_truth(d.ast)
+            w = limit_wrapper(inter, inter.facts.callee(fn, ct[0])) if ct else None
+            if w is None: continue
+            gi, rejv = w
+            if not gi.ok: return GuardInfo(False, 'limit wrapper %s: %s' % (A.callee_name(ct[0]), gi.why), d.line)
+            reject_label = (rejv == ct[1])
+            rej = [e for e in d.succ if e.kind == 'edge' and e.label is reject_label]
+            pas = [e for e in d.succ if e.kind == 'edge' and e.label is (not reject_label)]
+            if not rej or not pas: return GuardInfo(False, 'call of the limit wrapper %s is not a two-way branch' % A.callee_name(ct[0]), d.line)
+            region = G.region_of_edge(g, rej[0])
+            if not (any(n.kind == 'return' for n in region) or any(n.kind == 'stmt' and any(s is g.exit_throw for s in n.succ) for n in region)):
+                return GuardInfo(False, 'the caller does not leave when the limit wrapper %s reports failure' % A.callee_name(ct[0]), d.line)
+            if pas[0] not in doms:
+                return GuardInfo(False, 'open site is reachable from the failing outcome of the limit wrapper %s' % A.callee_name(ct[0]), d.line)
+            return GuardInfo(True, 'guard through %s(): %s' % (A.callee_name(ct[0]), gi.why), d.line)
+        if lc is None: continue
+        gi, reject_label, region = lc
+        if not gi.ok: return gi
         pas = [e for e in d.succ if e.kind == 'edge' and e.label is (not reject_label)]
-        if not rej:
-            return GuardInfo(False, 'nesting test has no reject edge (constant condition?)', d.line)
-        region = G.region_of_edge(g, rej[0])
-        stores = any(n.kind == 'stmt' and G.assigns_enumerator(n.ast, {'ec'}, 'max_nesting_depth_exceeded') for n in region)
-        returns = any(n.kind == 'return' for n in region) or any(n.kind == 'stmt' and any(s is g.exit_throw for s in n.succ) for n in region)
-        if not stores:
-            # throwing variant: JSONCONS_THROW(ser_error(errc::max_nesting_depth_exceeded))
-            throws = any(n.kind == 'stmt' and any(s is g.exit_throw for s in n.succ) and
-                         any(x.get('n') == 'max_nesting_depth_exceeded' for x in A.walk(n.ast)) for n in region)
-            if not throws:
-                return GuardInfo(False, 'reject edge of the nesting test does not store max_nesting_depth_exceeded', d.line)
-        if not returns:
-            return GuardInfo(False, 'reject edge of the nesting test does not return', d.line)
         if pas and (pas[0] in doms):
             pass  # hard pattern
         else:
@@ -81,12 +136,7 @@ def find_guard(g, node, cls):
                                                  for c in A.calls_in(n.ast)) for n in region)
             if not soft:
                 return GuardInfo(False, 'open site is reachable from the reject edge of the nesting test', d.line)
-        ex, why = exactness(op, shape, cls)
-        if ex is None:
-            return GuardInfo(False, why, d.line)
-        if not ex:
-            return GuardInfo(False, 'inexact limit: ' + why, d.line)
-        return GuardInfo(True, 'guard `%s` at line %d' % (A.text(d.ast), d.line), d.line)
+        return gi
     return None
 
 class Inter:
@@ -120,7 +170,7 @@ def guarded(inter, fn, call, depth, seen):
     n = g.node_of(call)
     if n is None:
         return None, 'call not in CFG (inside a lambda or unreachable code)', []
-    gi = find_guard(g, n, fn.get('cls', fn['q']))
+    gi = find_guard(g, n, fn.get('cls', fn['q']), inter, fn)
     if gi is not None:
         return gi.ok, gi.why, [(fn['q'], gi.line)]
     if depth == 0:
@@ -225,6 +275,7 @@ def r10_2(chk, tier):
     for unit, classes in ENCODERS:
         facts = F.load([unit], tier)
         if unit not in chk.units: chk.units.append(unit)
+        inter = Inter(facts, [])
         for cls in classes:
             fns = [f for f in U.functions(facts, cls=cls) if f['n'] in ('visit_begin_array', 'visit_begin_object')]
             chk.require(fns, 'R10.2: %s has no visit_begin_array/visit_begin_object' % cls)
@@ -247,7 +298,7 @@ def r10_2(chk, tier):
                     chk.broken('R10.2: %s pushes no frame, delegates nowhere and stores no error' % fn['q'])
                 for i, c in enumerate(pushes):
                     n = g.node_of(c)
-                    gi = find_guard(g, n, fn.get('cls', '')) if n is not None else None
+                    gi = find_guard(g, n, fn.get('cls', ''), inter, fn) if n is not None else None
                     psite = site + ' push#%d' % (i + 1)
                     if gi is None and n is not None and first_level_push(g, n):
                         chk.ok('R10.2', psite, {'function': fn['q'], 'push_line': c.get('l'),
